@@ -14,7 +14,7 @@ from ..baseclass import ndpoly
 
 HEADER_REGEX = re.compile(
     HEADER_TEMPLATE.format(
-        version=r"\S+", names=r"(\S+)", keys=r"(\S+)", shape=r"(\S+)"
+        version=r"\S+", names=r"(\S+)", keys=r"(\S+)", shape=r"(\S*)"
     )
 )
 
@@ -109,6 +109,7 @@ def loadtxt(
     if isinstance(header, bytes):
         header = header.decode("utf-8")
 
+    is_polynomial = header.startswith(comments + "numpoly:")
     array = numpy.loadtxt(
         fname,
         dtype=dtype,
@@ -118,18 +119,20 @@ def loadtxt(
         skiprows=skiprows,
         usecols=usecols,
         unpack=unpack,
-        ndmin=ndmin,
+        # one row per element and one column per key, also when there is only
+        # one of either
+        ndmin=2 if is_polynomial else ndmin,
         max_rows=max_rows,
         encoding=encoding,
     )
 
-    if header.startswith(comments + "numpoly:"):
+    if is_polynomial:
         match = re.search(HEADER_REGEX, header)
         assert match is not None
         groups = match.groups()
         names = tuple(groups[0].split(","))
         keys = groups[1].split(",")
-        shape = [int(idx) for idx in groups[2].split(",")]
+        shape = [int(idx) for idx in groups[2].split(",") if idx]
         dtype = numpy.dtype([(key, array.dtype) for key in keys])
         struct = unstructured_to_structured(array, dtype)
         array = numpoly.polynomial(struct, names=names)
